@@ -48,7 +48,8 @@ NEEDED_OPS = PATH_OPS + ["rmoveto", "hmoveto", "vmoveto", "hstem", "vstem", "hst
                          "cntrmask", "callsubr", "callgsubr", "return", "endchar", "blend", "vsindex"]
 NEEDED_VAC = ["width_present", "width_absent", "mask_bytes_0", "mask_bytes_1", "mask_bytes_2", "mask_bytes_3",
               "depth_0", "depth_1", "depth_2", "depth_3", "depth_10", "biasL_107", "biasL_1131", "biasL_32768",
-              "biasG_107", "biasG_1131", "biasG_32768"]
+              "biasG_107", "biasG_1131", "biasG_32768", "cff_operand_stack_48", "cff2_operand_stack_513",
+              "cff2_blend_above_255_operands"]
 # seac: per charset format, where the SID of a component sits (classes computed by TLC, counted by the harness from the
 # cases it was given - nothing here depends on what allsorts answered)
 _RANGE_POS = ["%s-range|%s" % (r, p) for r in ("first", "later") for p in ("first", "inner", "last", "only")]
@@ -56,11 +57,14 @@ NEEDED_SEAC = (["seac|%s|%s" % (f, k) for f in ("f1", "f2") for k in _RANGE_POS 
                ["seac|f0|%s" % k for k in ("first-entry", "later-entry", "missing-adjacent", "missing-far")] +
                ["seac|%s|%s" % (f, k) for f in ("iso", "expert", "expsub")
                 for k in ("predefined|inner", "predefined|last-glyph", "missing-adjacent", "missing-far")] +
-               ["seac_wf_true", "seac_wf_false", "seac_range_nleft_255", "seac_range_nleft_above_255"])
+               ["seac_wf_true", "seac_wf_false", "seac_range_nleft_255", "seac_range_nleft_above_255",
+                # computed by the machine in TLC: a subroutine called inside a seac component returns to code that goes on
+                "seac_subr_returns_inside_base", "seac_subr_returns_inside_accent", "seac_subr_returns_inside_both",
+                "depth_9"])
 NEEDED_FAM = ["forms/cff", "forms/cff2", "wrap/cff", "wrap/cid", "wrap/cff2", "wrap/cff2fd", "bias/cff", "bias/cid",
               "bias/cff2", "seac/cff", "blend/cff2", "misc/cff", "misc/cff2"]
 STAT_KEYS = ["judged", "exact", "fuzzy", "notwf", "cmds", "withsubrs", "withmask", "withwidth", "deep", "blends", "empty",
-             "seac"]
+             "seac", "seacsubr"]
 
 
 def _cmd_class(want, got):
@@ -176,7 +180,7 @@ def _recorded_stage(ctx, binp, violations, per_key):
     want_self = {x["case"] for x in planted}
     if seen_self != want_self:
         raise vlib.ToolError("binding self-check (judge) failed: rejected %s, expected exactly %s" % (sorted(seen_self), sorted(want_self)))
-    for k in ("judged", "exact", "withsubrs", "withmask", "withwidth", "deep", "blends", "seac"):
+    for k in ("judged", "exact", "withsubrs", "withmask", "withwidth", "deep", "blends", "seac", "seacsubr"):
         if stats.get(k, 0) == 0:
             raise vlib.ToolError("judge statistics are vacuous for %s" % k)
 
